@@ -4,7 +4,10 @@
    procedure handlers (nfsx.Env) and over a real loopback TCP connection with record marking to a server started
    with the public API.  Payloads are not part of the term: a probe carries kind, transport, count, offset, file
    size before and after, length of the call record sent, RPC-level code, status, returned count, and whether the
-   connection still answered a NULL call afterwards.
+   connection still answered a NULL call afterwards.  The TCP part may continue with PHASES: TransferSize is changed
+   at runtime (raised and lowered) while one connection stays open; after every change FSINFO, WRITE(wtmax),
+   WRITE(wtpref), READ(rtmax) are made on that old connection (p_old = true: accepted before the change) and on a fresh
+   one.  Every phase is compared and judged exactly like the case itself, with the TransferSize then in force.
 
    (1) mismatch (code 1): the implementation against the width-faithful model Model/Fsinfo32.v (FSINFO numbers, the
        WRITE count check, READ's clamp, "a call record above the record limit is dropped with the connection"); for
@@ -27,14 +30,19 @@ Record probe := mkProbe {
   p_rpc : N;                 (* 0 accepted + success; 999 no reply (connection lost); 1000 + accept_stat; 2000 denied; 3000 handler error *)
   p_status : N; p_count : N;
   p_size2 : N;               (* file size afterwards *)
-  p_alive : bool }.          (* the connection answered a NULL call afterwards (handler level: true) *)
+  p_alive : bool;            (* the connection answered a NULL call afterwards (handler level: true) *)
+  p_old : bool }.            (* made on a connection accepted before the last runtime change of TransferSize *)
+(* after one more runtime change: the value now in force, the six numbers as read on the old and on a fresh
+   connection, the probes *)
+Record phase := mkPhase { ph_ts : N; ph_nums_old : list N; ph_nums_new : list N; ph_probes : list probe }.
 Record case := mkCase {
   c_ts : N;                  (* TransferSize in force *)
   c_runtime : bool;          (* set through UpdateTuningOptions after construction with another value *)
   c_nums : list N;           (* rtmax rtpref rtmult wtmax wtpref wtmult as decoded from the reply *)
   c_all : list N;            (* every numeric field before the properties word: the six, dtpref, maxfilesize, time_delta *)
   c_tcp_nums : list N;       (* the six numbers as received over TCP ([] when the case has no TCP part) *)
-  c_probes : list probe }.
+  c_probes : list probe;
+  c_phases : list phase }.
 
 Definition pkind_eqb (a b : pkind) : bool := match a, b with PRead, PRead | PWrite, PWrite => true | _, _ => false end.
 Definition nth0 (l : list N) (k : nat) : N := nth k l 0.
@@ -62,13 +70,23 @@ Definition probe_matches (ts : N) (p : probe) : bool :=
    | PWrite => if ts <? two32 then Bool.eqb (tsize (srv_cfg ts) <? p_cnt p) (go_write_refused ts (p_cnt p)) else true
    | PRead => true end).
 
+Definition probes_mismatch (base ts : N) (l : list probe) : list (N * N) :=
+  flat_map (fun ip => if probe_matches ts (snd ip) then [] else [(base + fst ip + 1, code_mismatch)]) (index_from 0 l).
+Definition nums_match (ts : N) (l : list N) : bool :=
+  match l with [] => true | _ => list_eqb N.eqb l (go_fsinfo_nums ts) && (if ts <? two32 then list_eqb N.eqb l (srv_nums ts) else true) end.
+(* phase k reports its steps as 1000 * (k + 1) + probe index (0 = the FSINFO numbers) *)
+Definition phases_mismatch (l : list phase) : list (N * N) :=
+  flat_map (fun ip : N * phase =>
+    let base := 1000 * (fst ip + 1) in let ph := snd ip in
+    (if nums_match (ph_ts ph) (ph_nums_old ph) && nums_match (ph_ts ph) (ph_nums_new ph) then [] else [(base, code_mismatch)]) ++
+    probes_mismatch base (ph_ts ph) (ph_probes ph)) (index_from 0 l).
 Definition mismatch (c : case) : list (N * N) :=
   let ts := c_ts c in
   (if list_eqb N.eqb (c_nums c) (go_fsinfo_nums ts) && list_eqb N.eqb (c_all c) (go_fsinfo_all ts) &&
       (match c_tcp_nums c with [] => true | l => list_eqb N.eqb l (go_fsinfo_nums ts) end) &&
       (if ts <? two32 then list_eqb N.eqb (c_nums c) (srv_nums ts) else true)
    then [] else [(0, code_mismatch)]) ++
-  flat_map (fun ip => if probe_matches ts (snd ip) then [] else [(fst ip + 1, code_mismatch)]) (index_from 0 (c_probes c)).
+  probes_mismatch 0 ts (c_probes c) ++ phases_mismatch (c_phases c).
 
 (* ---------- (2) the property on the implementation's own numbers ---------- *)
 Definition nums_ok (nums all : list N) : bool :=
@@ -103,11 +121,29 @@ Definition maxima_probed (c : case) : bool :=
   ((rtmax =? 0) || (has_probe PRead false rtmax (c_probes c) && (negb uses_tcp || has_probe PRead true rtmax (c_probes c)))) &&
   ((wtmax =? 0) || (has_probe PWrite false wtmax (c_probes c) && (negb uses_tcp || has_probe PWrite true wtmax (c_probes c)))).
 
+Definition probes_specfail (base : N) (nums : list N) (l : list probe) : list (N * N) :=
+  flat_map (fun ip => if probe_ok nums (snd ip) then [] else [(base + fst ip + 1, code_specfail)]) (index_from 0 l).
+(* a phase: both connections read the same numbers, they satisfy nums_ok, the maxima are probed on the old and
+   on the fresh connection, and every probe is judged against the numbers advertised in this phase *)
+Definition has_probe_on (k : pkind) (old : bool) (cnt : N) (l : list probe) : bool :=
+  existsb (fun p => pkind_eqb (p_kind p) k && Bool.eqb (p_old p) old && (p_cnt p =? cnt)) l.
+Definition phase_specfail (base : N) (ph : phase) : list (N * N) :=
+  let nums := ph_nums_new ph in
+  let rtmax := nth0 nums 0 in let wtmax := nth0 nums 3 in
+  (if nums_ok nums [0; 0; 0; 0; 0; 0; 0] &&
+      (match ph_nums_old ph with [] => true | l => list_eqb N.eqb l nums end) &&
+      ((wtmax =? 0) || (has_probe_on PWrite false wtmax (ph_probes ph) &&
+                        (match ph_nums_old ph with [] => true | _ => has_probe_on PWrite true wtmax (ph_probes ph) end))) &&
+      ((rtmax =? 0) || has_probe_on PRead false rtmax (ph_probes ph))
+   then [] else [(base, code_specfail)]) ++
+  probes_specfail base nums (ph_probes ph).
+Definition phases_specfail (l : list phase) : list (N * N) :=
+  flat_map (fun ip : N * phase => phase_specfail (1000 * (fst ip + 1)) (snd ip)) (index_from 0 l).
 Definition specfail (c : case) : list (N * N) :=
   (if nums_ok (c_nums c) (c_all c) && maxima_probed c &&
       (match c_tcp_nums c with [] => true | l => list_eqb N.eqb l (c_nums c) end)
    then [] else [(0, code_specfail)]) ++
-  flat_map (fun ip => if probe_ok (c_nums c) (snd ip) then [] else [(fst ip + 1, code_specfail)]) (index_from 0 (c_probes c)).
+  probes_specfail 0 (c_nums c) (c_probes c) ++ phases_specfail (c_phases c).
 
 Definition check (c : case) : list (N * N) := specfail c ++ mismatch c.
 Definition run (cs : list case) : result := run_cases check cs.
